@@ -1,6 +1,6 @@
 SPECIFICATION Spec
 CONSTANTS
-  Shortcut = "none"
+  Shortcut = "le"
   Lo <- LoDef
   Hi <- LoDef
   Stride = 1
